@@ -170,6 +170,8 @@ pub mod novasmt {
     pub use super::novasmt_db::Database;
     /// every tree view is total (absent keys read as the empty string)
     pub broadcast axiom fn axiom_tree_total<C: ContentAddrStore>(t: Tree<C>, k: Seq<u8>) ensures #[trigger] t@.contains_key(k);
+    /// A-SMT: the all-zero root is the empty tree's and nobody else's (the fact `Database::get_tree` states for the tree it returns)
+    pub axiom fn axiom_zero_root(m: IMap<Seq<u8>, Seq<u8>>) requires root_of(m)@ == Seq::new(32, |i: int| 0u8) ensures forall|k: Seq<u8>| (#[trigger] m[k]).len() == 0;
 }
 
 // A-SER instances used by proofs (same facts as StdSer::ser_props, as broadcastable axioms)
